@@ -20,6 +20,7 @@ TRUSTED = ["hand model model/Granular.v", "tools/gran2coq.py wiring extractor", 
 ASSUMES = ["C15_scipy_partial: interval ordering / one-sidedness / equality with scipy.stats.bootstrap are facts about scipy, "
            "validated by direct calls"]
 COLS = ["x", "y", "z"]
+NULL = -999      # encoding of a missing value in the integer rows of the model
 
 
 def rand_case(rng):
@@ -27,9 +28,10 @@ def rand_case(rng):
     ids = {"int": [3, 0, 7, 1], "str": ["b", "a", "ctrl", "B"], "bool": [True, False]}[kind]
     ids = ids[:rng.randint(1, len(ids))]
     rows = []
+    nulls = rng.random() < 0.4       # missing values are data: the rows stay in their variant
     for v in ids:
         for _ in range(rng.randint(1, 6)):
-            rows.append((v, {c: rng.randint(-3, 9) for c in COLS + ["junk"]}))
+            rows.append((v, {c: (None if nulls and rng.random() < 0.2 else rng.randint(-3, 9)) for c in COLS + ["junk"]}))
     rng.shuffle(rows)
     cols = rng.sample(COLS, rng.randint(1, 3))
     return {"ids": ids, "rows": rows, "cols": cols, "backend": rng.choice(B.KINDS + ["pyarrow-chunked"]),
@@ -52,8 +54,14 @@ def real_granular(case):
     finally:
         B.cleanup()
     out = {}
+
+    def norm(x):      # null / NaN (pandas' encoding of a missing number) -> None; integral floats -> int
+        if x is None or (isinstance(x, float) and math.isnan(x)):
+            return None
+        return int(x) if isinstance(x, float) and x == int(x) else x
     for k, t in res.items():
-        out[k] = {"columns": list(t.column_names), "rows": [tuple(t[c][i].as_py() for c in case["cols"]) for i in range(t.num_rows)]}
+        out[k] = {"columns": list(t.column_names),
+                  "rows": [tuple(norm(t[c][i].as_py()) for c in case["cols"]) for i in range(t.num_rows)]}
     return out
 
 
@@ -66,7 +74,7 @@ HEADER = ("From Coq Require Import ZArith String List Bool.\nFrom TT Require Imp
 
 def model_term(case):
     code = {v: i for i, v in enumerate(dict.fromkeys(v for v, _ in case["rows"]))}   # order of first appearance
-    rows = "; ".join(f"({code[v]}%Z, mkrow [" + "; ".join(f"({H.slit(c)}, ({r[c]})%Z)" for c in COLS + ["junk"]) + "])"
+    rows = "; ".join(f"({code[v]}%Z, mkrow [" + "; ".join(f"({H.slit(c)}, ({NULL if r[c] is None else r[c]})%Z)" for c in COLS + ["junk"]) + "])"
                      for v, r in case["rows"])
     cols = "[" + "; ".join(H.slit(c) for c in case["cols"]) + "]"
     return f"showg {cols} (read_granular {cols} [{rows}])", {i: v for v, i in code.items()}
@@ -82,7 +90,7 @@ def parse_model(s, decode, ncols):
         elif a == -2:
             out[cur].append([])
         else:
-            out[cur][-1].append(b)
+            out[cur][-1].append(None if b == NULL else b)
     return {k: [tuple(r) for r in v] for k, v in out.items()}
 
 
@@ -164,6 +172,14 @@ def check_bootstrap(case):
         other = tt.Quantile("y", 0.5, n_resamples=10, random_state=1)
         exp = tt.Experiment(a=tt.Mean("y"), b=other, m=(tt.Quantile(cols[0], case["q"], **kw) if case["kind"] == "quantile"
                                                          else tt.Bootstrap(sel, stat, **kw))).analyze(B.make_table(case["backend"], data))
+        # as the only row-level metric (the fetch holds exactly its columns, in whatever order the union yields them), and from
+        # per-variant tables whose columns come in the opposite order
+        mk = lambda: (tt.Quantile(cols[0], case["q"], **kw) if case["kind"] == "quantile" else tt.Bootstrap(sel, stat, **kw))
+        alone = tt.Experiment(m=mk()).analyze(B.make_table(case["backend"], data))["m"]
+        import pyarrow as pa
+        rev = list(reversed(cols))
+        gran = {v: pa.table({c: [data[c][i] for i, x in enumerate(data["variant"]) if x == v] for c in rev}) for v in (0, 1)}
+        from_dict = mk().analyze(gran, 0, 1)
     finally:
         B.cleanup()
 
@@ -193,6 +209,10 @@ def check_bootstrap(case):
             fails.append(f"{k} = {getattr(res, k)} but scipy / plain statistic gives {w}")
         if not same(getattr(exp["m"], k), getattr(res, k)):
             fails.append(f"{k} differs inside an Experiment: {getattr(exp['m'], k)} vs {getattr(res, k)}")
+        if not same(getattr(alone, k), getattr(res, k)):
+            fails.append(f"{k} differs as the only metric of an Experiment: {getattr(alone, k)} vs {getattr(res, k)}")
+        if not same(getattr(from_dict, k), getattr(res, k)):
+            fails.append(f"{k} differs for per-variant tables with reordered columns: {getattr(from_dict, k)} vs {getattr(res, k)}")
     lo, hi = np.asarray(res.effect_size_ci_lower, dtype=float), np.asarray(res.effect_size_ci_upper, dtype=float)
     if np.any(lo > hi):
         fails.append("lower > upper")
